@@ -779,8 +779,27 @@ class Gen(object):
 
     def g_template_clone(self):
         xml = [i for i, ent in enumerate(self.U.files) if ent["backend"] == "xml"]
-        if not xml or not self.room(12):
+        if not xml:
+            # state-directed: first a template to clone from - a document of this run saved as XML
+            d = self.pick([d_ for d_ in self.U.of_kind("doc") if len(d_.sections)])
+            if d is None:
+                return None
+            return {"op": "save", "d": self.ref(d), "name": "tmpl", "backend": "xml"}
+        if not self.room(6):
             return None
+        if self.U.templates is not None and self.chance(0.5):
+            # state-directed: a template the handler holds already in which the name of a root
+            # Section is also used further down in an earlier root - ask for that root by name
+            for url, doc in sorted(dict.items(self.U.templates)):
+                roots = list(doc.sections)
+                for k, sec in enumerate(roots):
+                    earlier = [s_ for r in roots[:k] for s_ in self.U.subtree(r)[1:]
+                               if kind_of(s_) == "sec" and s_.name == sec.name]
+                    if earlier:
+                        f = [i for i in xml if url.endswith(self.U.files[i]["path"])]
+                        if f:
+                            return {"op": "template_clone", "f": f[0], "i": k,
+                                    "children": self.chance(0.75), "keep_id": self.chance(0.3)}
         return {"op": "template_clone", "f": self.pick(xml), "i": self.rng.randrange(4),
                 "children": self.chance(0.75), "keep_id": self.chance(0.3)}
 
